@@ -2346,6 +2346,8 @@ def parse_item(line_tokens):
             alignment = int(alignment, base=0)
         except ValueError:
             raise AssemblerError('alignment must be an integer', line)
+        if alignment < 1:
+            raise AssemblerError('alignment must be a positive integer', line)
         return Align(line, alignment)
     # r-type instructions
     elif head in R_TYPE_INSTRUCTIONS:
